@@ -1,1 +1,102 @@
-/-! C06 — property theorems (placeholder until the model exists). -/
+import EupsModel.Lemmas.Cache
+/-! C06 — the database reflects exactly the history of declare / undeclare / tag operations.
+Property theorems only; the model is `Model/Db.lean` (commands) under `Model/Cache.lean` (histories of
+processes: every command reads through the product cache it loads), helper lemmas in `Lemmas/`.
+
+A *history* is any list of `WCmd`: commands of any user and flavor, each optionally killed right after its
+k-th `Database` mutation, and cache-file deletions.  `runHistory (World.init nst dirs) h` is the state after
+it; `.db` is what a fresh reader of the files sees. -/
+namespace EupsModel.C06
+open EupsModel.Db EupsModel.Cache
+
+/-- the invariant of the database content holds after every history (crashes and cache deletions included;
+also for the pinned write-through, `fixed = false`) -/
+theorem dbInv_history (fixed : Bool) (nst : Nat) (dirs : List DirEnt) (h : List WCmd) :
+    DbInv (h.foldl (fun w c => (stepG fixed w c).w) (World.init nst dirs)).db := by
+  suffices ∀ w : World, DbInv w.db → DbInv (h.foldl (fun w c => (stepG fixed w c).w) w).db from
+    this _ dbInv_empty
+  induction h with
+  | nil => intro w hw; exact hw
+  | cons c cs ih => intro w hw; exact ih _ (step_preserves DbInv (fun _ e hc => hc.apply e) fixed w c hw)
+
+/-- After any history no tag points at an undeclared version: every tag record of a stack names a
+(name, version, flavor) that the same stack declares. -/
+theorem C06_no_dangling_tag (nst : Nat) (dirs : List DirEnt) (h : List WCmd) :
+    ∀ r ∈ (runHistory (World.init nst dirs) h).db.tags,
+      ∃ d ∈ (runHistory (World.init nst dirs) h).db.decls,
+        d.stack = r.stack ∧ d.name = r.name ∧ d.ver = r.ver ∧ d.flav = r.flav := by
+  intro r hr
+  have := (dbInv_history true nst dirs h).nd r hr
+  rw [Spec.hasDecl_iff] at this
+  obtain ⟨d, hd, hk⟩ := this
+  exact ⟨d, hd, Decl.hasKey_iff.mp hk⟩
+
+/-- After any history, within a stack a tag names at most one version per product and flavor, and a
+(name, version, flavor) is declared at most once (one directory, one table). -/
+theorem C06_tag_unique_in_stack (nst : Nat) (dirs : List DirEnt) (h : List WCmd) :
+    (∀ r ∈ (runHistory (World.init nst dirs) h).db.tags, ∀ q ∈ (runHistory (World.init nst dirs) h).db.tags,
+        r.stack = q.stack → r.tag = q.tag → r.name = q.name → r.flav = q.flav → r = q) ∧
+    (∀ d ∈ (runHistory (World.init nst dirs) h).db.decls, ∀ e ∈ (runHistory (World.init nst dirs) h).db.decls,
+        d.stack = e.stack → d.name = e.name → d.ver = e.ver → d.flav = e.flav → d = e) := by
+  have ku := (dbInv_history true nst dirs h).ku
+  exact ⟨fun r hr q hq h1 h2 h3 h4 => ku.tag r hr q hq (TagRec.sameKey_iff.mpr ⟨h1, h2, h3, h4⟩),
+         fun d hd e he h1 h2 h3 h4 => ku.decl d hd e he (Decl.sameKey_iff.mpr ⟨h1, h2, h3, h4⟩)⟩
+
+/-- Frame.  A command on (name, version, flavor, tag) — run from any state, by any user, killed anywhere or
+not — leaves every declaration of another product, flavor or version as it was, in every stack, other flavors
+in the same version file included (`Cmd.fpVer`: `declare` touches its version only; `undeclare` the version
+given, or any version of the product when none is given; the tag commands none), and every tag record of
+another product or flavor, and those of the same product and flavor that neither carry the command's tag
+(`Cmd.fpTag`: the tag given; `current` for a `declare` without tag) nor sit on a version the command may
+change. -/
+theorem C06_frame (w : World) (u : User) (c : Cmd) (crash : Option Nat) :
+    (∀ x : Decl, ¬ (x.name = c.name ∧ x.flav = c.self ∧ c.fpVer x.ver) →
+        (x ∈ (step w (.run u c crash)).db.decls ↔ x ∈ w.db.decls)) ∧
+    (∀ r : TagRec, ¬ (r.name = c.name ∧ r.flav = c.self ∧ (c.fpTag r.tag ∨ c.fpVer r.ver)) →
+        (r ∈ (step w (.run u c crash)).db.tags ↔ r ∈ w.db.tags)) := by
+  obtain ⟨m, dirs, es, hs, he⟩ := step_db true w u c crash
+  have hok : ∀ e ∈ es, Within c.name c.self c.fpVer c.fpTag e := by
+    intro e hes
+    exact run_trOK w.nst c ⟨w.db, m, dirs, []⟩ (by intro e h; simp at h) e (hs.subset hes)
+  unfold step
+  rw [he]
+  clear he hs
+  generalize w.db = d
+  constructor
+  · intro x hx
+    induction es generalizing d with
+    | nil => exact Iff.rfl
+    | cons e es ih =>
+      have hfalse : e.touchesDecl x = false := by
+        cases ht : e.touchesDecl x with
+        | false => rfl
+        | true => exact absurd ((hok e (by simp)).touchesDecl ht) hx
+      simp only [List.foldl_cons]
+      exact (ih (fun e' h' => hok e' (by simp [h'])) _).trans (applyDb_frame_decl e d x hfalse)
+  · intro r hr
+    induction es generalizing d with
+    | nil => exact Iff.rfl
+    | cons e es ih =>
+      have hfalse : e.touchesTag r = false := by
+        cases ht : e.touchesTag r with
+        | false => rfl
+        | true => exact absurd ((hok e (by simp)).touchesTag ht) hr
+      simp only [List.foldl_cons]
+      exact (ih (fun e' h' => hok e' (by simp [h'])) _).trans (applyDb_frame_tag e d r hfalse)
+
+/-- deleting a cache file changes nothing in the database -/
+theorem C06_frame_rmCache (w : World) (u : User) (s : Nat) (f : Flav) : (step w (.rmCache u s f)).db = w.db := rfl
+
+/-! ### the hypotheses are satisfiable / the statements are not vacuous -/
+
+/-- `declare p 1` in stack 0 then `declare p 2 -t beta`: two declarations and two tags come out, so the
+quantifiers above range over something -/
+example :
+    let p : Name := [112]; let L : Flav := [76]; let beta : Tag := [98]
+    let dirs : List DirEnt := [⟨⟨0, relDir L p [49]⟩, p⟩, ⟨⟨0, relDir L p [50]⟩, p⟩]
+    let w := runHistory (World.init 2 dirs)
+      [.run 0 (.declare ⟨L, p, [49], some ⟨0, relDir L p [49]⟩, none, false, none, false, false⟩) none,
+       .run 0 (.declare ⟨L, p, [50], some ⟨0, relDir L p [50]⟩, none, false, some beta, false, false⟩) none]
+    (w.db.decls.length, w.db.tags.length) = (2, 2) := by decide
+
+end EupsModel.C06
